@@ -141,11 +141,12 @@ Definition dominates (a b : cand) : bool :=
   else if negb (list_eqb Nat.eqb (c_spec a) (c_spec b)) then all_ge (c_spec a) (c_spec b)
   else Z.ltb (c_tie b) (c_tie a).
 
-(* stable sort, descending key: list.sort(key=..., reverse=True) keeps equal keys in their original order *)
+(* stable sort, descending key: list.sort(key=..., reverse=True) keeps equal keys in their original order:
+   an element is inserted in front of the first element whose key is not strictly greater *)
 Fixpoint insert_desc (c : cand) (l : list cand) : list cand :=
   match l with
   | [] => [c]
-  | x :: r => if key_gt c x then c :: l else x :: insert_desc c r
+  | x :: r => if key_gt x c then x :: insert_desc c r else c :: l
   end.
 
 Definition sort_desc (l : list cand) : list cand := fold_right insert_desc [] l.
